@@ -1235,7 +1235,7 @@ def c08_columns(v):
 
 # ---------------------------------------------------------------------------------------------------- C07 (RT1, loop-free classes)
 
-def _rt1(v, qual, decoder_qual=None, extra_valid=()):
+def _rt1(v, qual, decoder_qual=None, extra_valid=(), pick=(), suffix='', pick_class=None):
     """encode-then-decode for one class: for an arbitrary valid value x of the class whose encoder returns normally, any
     prefix and any trailing bytes, the REAL decoder run at the cursor over  prefix + enc(x) + rest  returns a value equal to
     x (field by field) with the cursor exactly behind enc(x), and does not raise.  The decoder's body is executed here
@@ -1248,7 +1248,7 @@ def _rt1(v, qual, decoder_qual=None, extra_valid=()):
     cls = v.resolve(qual)
     dec_cls = v.resolve(decoder_qual) if decoder_qual else cls
     name = cls.__name__
-    tag = "C07:lemma:rt1:%s:" % name
+    tag = "C07:lemma:rt1:%s%s:" % (name, suffix)
     st = State()
     st.stack.append(Frame({}, None, importlib.import_module(cls.__module__).__dict__, 'lemma:C07.rt1.' + name))
     x = v.fresh('x', CLS(name))
@@ -1256,7 +1256,44 @@ def _rt1(v, qual, decoder_qual=None, extra_valid=()):
     st.frame.vars['x'] = x
     for t in extra_valid:
         st.assume(v.b(v.spec_bool(t, st)))
+    for rec_text in pick:
+        # the case of the lemma: which concrete class a component belongs to (hierarchies)
+        st.assume(v.b(v.spec_bool(rec_text, st)))
     enc = GH.ghosts['enc_of'](v, st, x)          # unfolded encoding: the bytes the real stream_serialize writes
+    st.assume(v.b(v._or([v.b(c) for c in v.last_enc_conditions])))       # x is a value the encoder accepts
+    # ... unfolded through the component objects as well (their own real encoders), so that the decoder below meets bytes, not
+    # summaries: every occurrence of enc(component) is replaced by the component's unfolded encoding (equal by the
+    # definitional axioms enc_of states)
+    for _round in range(3):
+        subs = []
+        todo = [enc.t]
+        seen = set()
+        while todo:
+            e_ = todo.pop()
+            if e_.get_id() in seen:
+                continue
+            seen.add(e_.get_id())
+            if z3.is_app(e_) and e_.decl().kind() == z3.Z3_OP_UNINTERPRETED and e_.decl().name().startswith('enc') \
+                    and e_.num_args() == 1 and str(e_.sort()) == str(BYTES_SORT) and not e_.arg(0).eq(x.t):
+                comp = e_.arg(0)
+                cname = [n for n, ci in v.reg.classes.items() if ci.ctor is not None and comp.sort() == v.reg.sorts.get(ci.root)]
+                root = None
+                for rn, srt in v.reg.sorts.items():
+                    if srt == comp.sort():
+                        root = rn
+                if root is not None:
+                    # (a component of a class hierarchy: the concrete class this case of the lemma is about)
+                    ccls = pick_class if (pick_class and v.reg.root_of(pick_class) == root) else root
+                    sub_enc = GH.ghosts['enc_of'](v, st, V(comp, CLS(ccls)))
+                    st.assume(v.b(v._or([v.b(c) for c in v.last_enc_conditions])))
+                    subs.append((e_, sub_enc.t))
+            elif z3.is_app(e_):
+                todo.extend(e_.children())
+        if not subs:
+            break
+        enc = V(z3.substitute(enc.t, *subs), BYTES)
+    r_v, _s_v = v.check_sat(list(st.pc), 10000)
+    v.vacuity.append((tag + "hypotheses-satisfiable", r_v))
     pre = v.fresh('prefix', BYTES)
     rest = v.fresh('rest', BYTES)
     data = V(v.mk_concat(pre.t, enc.t, rest.t), BYTES)
@@ -1288,9 +1325,20 @@ def _rt1(v, qual, decoder_qual=None, extra_valid=()):
     v.oblige(st, z3.BoolVal(n_paths > 0), tag + "decoder-executed", "paths: %d" % n_paths)
 
 
-# (the tagged classes - keys and signatures - and everything above them need a second solver and minutes per obligation for
-# the same statement; they stay with the bounded companion)
+# (the classes that contain a VLQ or a list - BlockSummary, BlockHeader, Transaction, Block - stay with the bounded companion:
+# the VLQ pair is a trusted summary and the list decoder would need a second family of loop invariants)
 LM.lemma("C07.rt1.OutputReference", props=["C07"])(lambda v: _rt1(v, "skepticoin.datatypes.OutputReference"))
 LM.lemma("C07.rt1.PowEvidence", props=["C07"])(lambda v: _rt1(
     v, "skepticoin.datatypes.PowEvidence",
     extra_valid=("len(x.summary_hash) == 32", "len(x.chain_sample) == 32", "len(x.block_hash) == 32")))
+
+for _q, _dq in (("skepticoin.signing.SECP256k1PublicKey", "skepticoin.signing.PublicKey"),
+                ("skepticoin.signing.SECP256k1Signature", "skepticoin.signing.Signature"),
+                ("skepticoin.signing.SignableEquivalent", "skepticoin.signing.Signature"),
+                ("skepticoin.signing.CoinbaseData", "skepticoin.signing.Signature"),
+                ("skepticoin.datatypes.Output", None)):
+    LM.lemma("C07.rt1.%s" % _q.split('.')[-1], props=["C07"])(lambda v, _q=_q, _dq=_dq: _rt1(v, _q, _dq))
+for _kind in ("SECP256k1Signature", "SignableEquivalent"):      # (the CoinbaseData case takes a minute: companion only)
+    LM.lemma("C07.rt1.Input.%s" % _kind, props=["C07"])(
+        lambda v, _kind=_kind: _rt1(v, "skepticoin.datatypes.Input", None, pick=("isinstance(x.signature, %s)" % _kind,),
+                                    suffix='.' + _kind, pick_class=_kind))
